@@ -1,6 +1,7 @@
 import RosuModel.Lemmas.GradualOsu
 import RosuModel.Lemmas.GradualCatch
 import RosuModel.Lemmas.GradualMania
+import RosuModel.Lemmas.GradualTaiko
 
 /-!
 # C15 — gradual calculators obey the iterator protocol
@@ -314,6 +315,53 @@ theorem taiko_len_underflow :
     ((m.nexts (taikoNew listSkills objs) 4).1.map (fun r => decide (r ≠ Res.none))) = [true, true, true, true] ∧
     m.len (m.nexts (taikoNew listSkills objs) 4).2 = none := by
   decide
+
+
+/-! ### taiko, regular maps (first two objects hits, at least three objects): what does hold -/
+
+/-- `len()` is the number of values still to come, in every canonical state. -/
+theorem taiko_len_eq_remaining_partial (sk : Skills S) (rest : List Bool) (g : TaikoGrad S) (i : Nat)
+    (hc : TaikoCanon sk rest g i) :
+    (taikoMachine sk (true :: true :: rest)).len g = some (2 + hitsIn rest - i) := by
+  have hH : ((true :: true :: rest).filter id).length = 2 + hitsIn rest := by
+    show hitsIn (true :: true :: rest) = _
+    rw [hitsIn_cons, hitsIn_cons]; simp; omega
+  show csub ((true :: true :: rest).filter id).length g.idx = _
+  rw [hH, hc.idx]
+  have := hc.le
+  simp [csub, this]
+
+/-- Once the last hit has been reported every further `next` returns `None`, without panicking,
+and `len()` stays 0 (no underflow on regular maps). -/
+theorem taiko_exhausted_stays_none_partial (sk : Skills S) (rest : List Bool) (g : TaikoGrad S)
+    (hc : TaikoCanon sk rest g (2 + hitsIn rest)) :
+    let objs := true :: true :: rest
+    let r1 := taikoNext sk objs g
+    let r2 := taikoNext sk objs r1.2
+    r1.1 = none ∧ r2.1 = none ∧ r2.2 = r1.2 ∧ (taikoMachine sk objs).len r1.2 = some 0 := by
+  intro objs r1 r2
+  obtain ⟨hidx, hcombo, hpos, hsk, hge, hle⟩ := hc
+  have hdrop : objs.drop 2 = rest := rfl
+  have hqle : cutLen rest (2 + hitsIn rest - 2) ≤ rest.length := cutLen_le _ _
+  have hrem : hitsIn (rest.drop (cutLen rest (2 + hitsIn rest - 2))) = 0 := by
+    rw [hitsIn_drop_cutLen rest _ (by omega)]; omega
+  have hidx2 : g.idx ≥ 2 := by omega
+  have hl := taikoHitLoop_dry sk rest (rest.length + 1) g _ hpos hsk hqle hrem (by omega)
+  have hr1 : r1 = (none, { g with iterPos := rest.length, skills := processedPrefix sk rest.length }) := by
+    simp only [r1, taikoNext, hdrop, hidx2, ↓reduceIte, hl]
+  have hdrop0 : hitsIn (rest.drop rest.length) = 0 := by simp [hitsIn]
+  have hl2 := taikoHitLoop_dry sk rest (rest.length + 1)
+    ({ g with iterPos := rest.length, skills := processedPrefix sk rest.length } : TaikoGrad S) rest.length rfl rfl
+    (Nat.le_refl _) hdrop0 (by omega)
+  have hr2 : r2 = (none, { g with iterPos := rest.length, skills := processedPrefix sk rest.length }) := by
+    simp only [r2, hr1, taikoNext, hdrop, hidx2, ↓reduceIte, hl2]
+  refine ⟨by rw [hr1], by rw [hr2], by rw [hr2, hr1], ?_⟩
+  rw [hr1]
+  have hH : (objs.filter id).length = 2 + hitsIn rest := by
+    show hitsIn (true :: true :: rest) = _
+    rw [hitsIn_cons, hitsIn_cons]; simp; omega
+  show csub (objs.filter id).length g.idx = some 0
+  rw [hH, hidx]; simp [csub]
 
 /-- Non-vacuity: a concrete three-object map, after `next; nth 0`, is in the canonical state 2. -/
 example :
